@@ -42,14 +42,14 @@ Theorem C11_payload : forall (img : image) (hash : N) (pos : N * N) (st : kitty)
      store_run s tx = store_add_image id (mkTimage (im_width img) (im_height img) (pix_bytes img)) s).
 Proof. exact payload_thm. Qed.
 
-(* the pixels of `pix_bytes` are the cells of the window in row-major order:
+(* `pix_bytes img` is by definition `flat_map rgba_bytes (im_pixels img)`; the pixels are the cells of
+   the window in row-major order:
    positions h w = (0,0), (0,1), ..., (0,w-1), (1,0), ... *)
 Theorem C11_row_major : forall img : image, image_wf img ->
-  pix_bytes img = flat_map rgba_bytes (im_pixels img) /\
   map Some (im_pixels img) =
   map (fun p => nth_error (im_data img) (offset (im_shape img) (fst p) (snd p)))
       (positions (sh_height (im_shape img)) (sh_width (im_shape img))).
-Proof. intros img H. split; [reflexivity|exact (pixels_row_major img H)]. Qed.
+Proof. exact pixels_row_major. Qed.
 
 (* an image without pixels: nothing at all is written (no transmission, no placement) *)
 Theorem C11_empty : forall (img : image) (hash : N) (pos : N * N) (st : kitty),
@@ -58,23 +58,41 @@ Proof. intros img hash pos st. apply draw_empty. Qed.
 
 (* every call writes a well-formed sequence of escape codes: the independent parser reads the
    bytes of any draw / erase / handle call back as the commands `step_items` *)
-Theorem C11_bytes_parse : forall (st : kitty) (s : tstore) (o : op),
+Theorem C11_bytes_parse : forall (st : kitty) (o : op),
+  cache_wf st -> op_wf o ->
+  parse_stream (fst (fst (step st o))) = Some (step_items st o).
+Proof. exact step_bytes_parse. Qed.
+
+(* hence the terminal side of a call (term_step, which would record error 99 for unparsable bytes)
+   is the store run over those commands *)
+Theorem C11_term_step : forall (st : kitty) (s : tstore) (o : op),
   cache_wf st -> op_wf o ->
   term_step st s o = store_run (pre_store o s) (step_items st o).
 Proof. exact term_step_items. Qed.
 
 (* ------------------------------------------------------------------------------------------ *)
-(* (once) For every history of draw / erase / handle calls on a new handler (quiet or not), with
+(* (once, between error responses) For every history of draw / erase / handle calls on a new handler (quiet or not), with
    the terminal reading every byte: the terminal never reports a protocol error -- in particular
    no placement of an image it does not hold (ENOENT), no bad chunk, no payload of the wrong
    size --, no chunked transmission is left open, every placement it holds names an image it
    holds, and (once_scan) a call transmits at most one image, and never an id whose pixels were
    transmitted since the last error response naming that id.  Invariant over histories. *)
-Theorem C11_once : forall (quiet : bool) (ops : list op), Forall op_wf ops ->
+Theorem C11_once_between_errors : forall (quiet : bool) (ops : list op), Forall op_wf ops ->
   let trace := lockstep (kitty_new quiet) store0 ops in
   Forall (fun s' => t_errs s' = [] /\ t_pending s' = None /\ places_valid s') trace /\
   once_scan [] (combine (map err_of ops) (map sent_ids trace)) = true.
 Proof. intros quiet ops H. exact (history_ok ops (kitty_new quiet) store0 (inv_init quiet) H). Qed.
+
+(* the same with the hash argument of every call being the content hash of its image (Image/Fnv.v),
+   so that "id" above is a function of the content: equal contents share it (C11_same_content_same_id),
+   different contents differ in it outside the class id-collision.  NOT claimed: "at most once per
+   handler lifetime" -- after an error response naming the id the pixels are sent again, by design. *)
+Theorem C11_once_between_errors_by_content : forall (quiet : bool) (uops : list uop), Forall uop_wf uops ->
+  let ops := map with_hash uops in
+  let trace := lockstep (kitty_new quiet) store0 ops in
+  Forall (fun s' => t_errs s' = [] /\ t_pending s' = None /\ places_valid s') trace /\
+  once_scan [] (combine (map err_of ops) (map sent_ids trace)) = true.
+Proof. exact history_ok_hashed. Qed.
 
 (* the invariant behind it: what the handler counts as transmitted is held by the terminal pixel
    for pixel, and every placement on the terminal names such an image *)
@@ -216,7 +234,7 @@ Check C11_payload : forall (img : image) (hash : N) (pos : N * N) (st : kitty),
   N.of_nat (length (pix_bytes img)) = im_width img * im_height img * 4 /\
   (forall s, t_pending s = None ->
      store_run s tx = store_add_image id (mkTimage (im_width img) (im_height img) (pix_bytes img)) s).
-Check C11_once : forall (quiet : bool) (ops : list op), Forall op_wf ops ->
+Check C11_once_between_errors : forall (quiet : bool) (ops : list op), Forall op_wf ops ->
   let trace := lockstep (kitty_new quiet) store0 ops in
   Forall (fun s' => t_errs s' = [] /\ t_pending s' = None /\ places_valid s') trace /\
   once_scan [] (combine (map err_of ops) (map sent_ids trace)) = true.
@@ -265,6 +283,16 @@ Example C11_payload_nonvacuous :
           put_item 900477109 458758 0] /\
   option_map (@length N) (b64_decode (concat (tx_chunks ex_img))) = Some 24%nat.
 Proof. vm_compute. split; reflexivity. Qed.
+
+(* a 769-pixel image: 3076 bytes, 4104 base64 characters, two chunks of 4096 and 8 bytes, m = 1 then 0 *)
+Definition ex_two_chunks : image := mkImage (repeat (7, 8, 9, 10) 769) (of_size 769 1).
+Example C11_payload_two_chunks_nonvacuous :
+  map (@length N) (tx_chunks ex_two_chunks) = [4096; 8]%nat /\
+  map item_more (tx_items 5 0 ex_two_chunks) = [Some 1; Some 0] /\
+  option_map (@length N) (b64_decode (concat (tx_chunks ex_two_chunks))) = Some 3076%nat /\
+  option_map (@length item)
+    (parse_stream (fst (draw (kitty_new false) ex_two_chunks 4 (0, 0)))) = Some 3%nat.
+Proof. vm_compute. repeat split; reflexivity. Qed.
 
 (* a history: draw twice, error response, draw again -> transmitted, not, re-transmitted, not *)
 Example C11_once_nonvacuous :
